@@ -71,6 +71,7 @@ class Engine(EngineBase, ExprMixin, CompMixin, CallMixin, FuncMixin, StmtMixin):
         self.cur_target, self.cur_prop = target, con.prop
         self.cur_raises = dict(con.raises)
         self.opaque_raise = con.opaque_raise
+        self.cur_type_map = dict(con.type_map)
         self._cm_at_yield = list(con.at_yield)
         self.obligations = []
         self.npaths = 0
@@ -401,11 +402,9 @@ def discharge(ob: Obligation, timeout_ms=10000, use_cvc5=True):
     if res == z3.unknown:
         ob.result, ob.reason = "unknown", reason
         if use_cvc5:
-            r = cvc5_check(ob, timeout_ms)
+            r, who = cvc5_check(ob, timeout_ms)
             if r == "unsat":
-                ob.result, ob.backend = "discharged", "cvc5"
-            elif r == "sat":
-                ob.result, ob.backend, ob.reason = "refuted", "cvc5", "cvc5 sat (no model decoded)"
+                ob.result, ob.backend = "discharged", who
     if model is not None:
         ob.model = model
     ob.exact = ob.exact and not has_ufs(list(ob.pc) + [ob.goal])
@@ -413,26 +412,61 @@ def discharge(ob: Obligation, timeout_ms=10000, use_cvc5=True):
     return ob
 
 
+PORTFOLIO = [
+    ("cvc5:enum-inst/no-e-matching", ["/usr/bin/cvc5", "--strings-exp", "--enum-inst", "--no-e-matching"]),
+    ("cvc5:enum-inst", ["/usr/bin/cvc5", "--strings-exp", "--enum-inst"]),
+    ("cvc5", ["/usr/bin/cvc5", "--strings-exp"]),
+    ("z3-4.8", ["/usr/bin/z3"]),
+    ("z3:no-mbqi", ["z3-new", "smt.mbqi=false", "smt.auto_config=false"]),
+]
+
+
 def cvc5_check(ob: Obligation, timeout_ms):
+    """Portfolio of external solver runs on the SMT-LIB text of the query, in parallel; the first definite
+    answer wins.  Returns ('unsat'|'sat'|'unknown', backend name)."""
     s = z3.Solver()
     s.add(*ob.pc)
     s.add(z3.Not(ob.goal))
     try:
         smt2 = s.to_smt2()
     except z3.Z3Exception:
-        return "unknown"
-    if "lambda" in smt2 or "fp." in smt2 and False:
-        smt2 = smt2
-    smt2 = "(set-logic ALL)\n" + smt2
+        return "unknown", ""
     with tempfile.NamedTemporaryFile("w", suffix=".smt2", delete=False) as f:
         f.write(smt2)
-        path = f.name
+        path_z3 = f.name
+    with tempfile.NamedTemporaryFile("w", suffix=".smt2", delete=False) as f:
+        f.write("(set-logic ALL)\n" + smt2)
+        path_cvc5 = f.name
+    procs = []
     try:
-        p = subprocess.run(["/usr/bin/cvc5", "--strings-exp", f"--tlimit={timeout_ms}", path],
-                           capture_output=True, text=True, timeout=timeout_ms / 1000 + 5)
-        out = p.stdout.strip().splitlines()
-        return out[0] if out and out[0] in ("sat", "unsat") else "unknown"
-    except (subprocess.TimeoutExpired, OSError):
-        return "unknown"
+        for name, cmd in PORTFOLIO:
+            if cmd[0].endswith("cvc5"):
+                full = cmd + [f"--tlimit={timeout_ms}", path_cvc5]
+            else:
+                full = cmd + [f"-T:{max(1, timeout_ms // 1000)}", path_z3]
+            try:
+                procs.append((name, subprocess.Popen(full, stdout=subprocess.PIPE, stderr=subprocess.DEVNULL, text=True)))
+            except OSError:
+                continue
+        deadline = time.time() + timeout_ms / 1000 + 3
+        pending = list(procs)
+        while pending and time.time() < deadline:
+            for name, p in list(pending):
+                if p.poll() is not None:
+                    pending.remove((name, p))
+                    out = (p.stdout.read() or "").strip().splitlines()
+                    if out and out[0] in ("unsat", "sat"):
+                        # 'sat' from a run without MBQI / from cvc5 with quantifiers is not trusted as a model
+                        if out[0] == "unsat":
+                            return "unsat", name
+            time.sleep(0.05)
+        return "unknown", ""
     finally:
-        os.unlink(path)
+        for _, p in procs:
+            if p.poll() is None:
+                p.kill()
+        for pth in (path_z3, path_cvc5):
+            try:
+                os.unlink(pth)
+            except OSError:
+                pass
